@@ -211,6 +211,7 @@ public:
 
     bool hasSortSymbol(SortSymbol const &) const;
     bool peekSortSymbol(SortSymbol const &, SSymRef &) const;
+    SortSymbol const & getSortSymbol(SSymRef sr) const { return sort_store[sr]; }
     SSymRef declareSortSymbol(SortSymbol symbol);
     SRef getSort(SSymRef, vec<SRef> && args);
 
